@@ -47,6 +47,12 @@ BEHAVIOURS = {
     "letter-read": "{ RdV = RxV + PeV; }",
     "letter-new": "{ RdV = PuN + NsN; }",
     "letter-plain": "{ RdV = PuV + RsV; }",
+    # the plain C type names (their type objects must not be shared between declarations: a declaration changes them in place)
+    "c-int-widen": "{ int n = RsV; RddV = n; RxV = ((int)RtV) >> 4; }",
+    "c-unsigned-int": "{ unsigned int u = RsV; RddV = u; }",
+    "c-unsigned": "{ unsigned w = RsV; RddV = w; RxV = w >> 4; }",
+    "c-cast-unsigned-int": "{ RddV = (unsigned int)RsV; RxV = (int)RtV; }",
+    "c-int64": "{ int64_t q = RsV; uint64_t p = RtV; RddV = q + p; }",
     # several value-producing operations consumed by one statement (their order is part of the meaning)
     "tmp-three": "{ int32_t i = 0; RdV = clz32(RsV) + i++ + clo32(RtV); }",
     "tmp-sat-chain": "{ RdV = (clz32(RsV) > 3) ? ({ set_usr_field(bundle, HEX_REG_FIELD_USR_OVF, 1); clo32(RtV); }) : fbrev(RsV); }",
